@@ -381,6 +381,13 @@ func (h *HttpServer) openToken(version byte, token []byte, aad []byte, out inter
 	if err != nil {
 		return &RpcError{Type: "RuntimeError", Message: "Malformed state token"}
 	}
+	// Accept only the exact text sealToken produced. encoding/base64 skips
+	// CR/LF anywhere and ignores the unused bits of the final quantum, so
+	// without this a token whose text was altered (even by a single bit)
+	// still decoded to the sealed bytes and was accepted as unmodified.
+	if base64.StdEncoding.EncodeToString(raw) != string(token) {
+		return &RpcError{Type: "RuntimeError", Message: "Malformed state token"}
+	}
 	if len(raw) < stateTokenMinLen {
 		return &RpcError{Type: "RuntimeError", Message: "Malformed state token"}
 	}
